@@ -220,7 +220,7 @@ func (c Call) String() string {
 var (
 	FuncNames   = []string{"fn", "num", "truth", "pair", "ident"}
 	FilterNames = []string{"wrap", "inc", "up", "b1", "b2", "b3", "ident"}
-	TestNames   = []string{"pos", "eq", "divisible by", "empty"}
+	TestNames   = []string{"pos", "eq", "divisible by", "empty", "whole number"}
 )
 
 // FuncResult computes the value a registered function returns.
@@ -295,6 +295,8 @@ func TestResult(name string, v interface{}, args []interface{}, str func(interfa
 		return int(num(v))%int(num(args[0])) == 0
 	case "empty":
 		return str(v) == ""
+	case "whole number":
+		return len(args) == 0 && num(v) == math.Trunc(num(v))
 	}
 	return false
 }
